@@ -17,6 +17,7 @@ RESERVED = {'begin', 'end', 'item', 'in', 'def', 'textbf', 'section', 'label', '
 MATHENVS = ['equation', 'align*', 'displaymath', 'math', 'gather', 'split', 'array']
 VERBENVS = ['verbatim', 'lstlisting', 'Verbatim', 'listing', 'verbatimtab']
 TEXT_REPS = ['a', 'x', ' ', '\n', '\t', '.', ',', '&', '#', '^', '_', '~', '(', ')', '1', 'é', '\u2003', '\x0b', '中', '-']
+NAME_POOL = None
 NAME_REPS = ['a', 'b', 'q', 'Z', 'ab', 'xy', 'Q']
 
 
